@@ -127,7 +127,11 @@ def gen_calls(gen, inst, rnd, n, temps=None):
         elif c < 0.69:
             calls.append(("ac", ai, "set_quick_timer_time",
                           (rnd.choice(["ON_TIMER", "OFF_TIMER"]), rnd.randint(0, 23),
-                           rnd.randint(0, 59))))
+                           rnd.randint(0, 59),
+                           rnd.choice([None, None, (59, 999999, None, 0), (30, 0, 0, 0),
+                                       (0, 0, rnd.choice([600, -300, 330, 765, -720]), 0),
+                                       (rnd.randint(0, 59), 0, rnd.choice([60, -60, 840]), 1),
+                                       (0, 1, None, 1)]))))
         elif c < 0.74:
             calls.append(("ac", ai, "clear_quick_timer", (rnd.choice(["ON_TIMER", "OFF_TIMER"]),)))
         elif c < 0.76:
@@ -187,7 +191,7 @@ def _perform_kw(at, call):
                 api.AcTimerType[args[0]], datetime.timedelta(seconds=args[1])]))
         if method == "set_quick_timer_time":
             return ac.set_quick_timer(**_kw(A, "set_quick_timer", [
-                api.AcTimerType[args[0]], datetime.time(args[1], args[2])]))
+                api.AcTimerType[args[0]], _mktime(args)]))
         if method == "clear_quick_timer":
             return ac.clear_quick_timer(**_kw(A, "clear_quick_timer", [api.AcTimerType[args[0]]]))
     ac = acs[idx[0]]
@@ -197,6 +201,17 @@ def _perform_kw(at, call):
     if method == "set_target_temperature":
         return z.set_target_temperature(**_kw(Z, "set_target_temperature", [args[0]]))
     return z.set_damper_percentage(**_kw(Z, "set_damper_percentage", [args[0]]))
+
+
+def _mktime(args):
+    """A time of day: (type, hour, minute[, (second, microsecond, utc offset in minutes or None,
+    fold)]). The console keeps wall-clock hours and minutes; what is requested is the hour and
+    the minute of the value whatever else the time object carries."""
+    if len(args) < 4 or args[3] is None:
+        return datetime.time(args[1], args[2])
+    sec, usec, off, fold = args[3]
+    tz = None if off is None else datetime.timezone(datetime.timedelta(minutes=off))
+    return datetime.time(args[1], args[2], sec, usec, tzinfo=tz, fold=fold)
 
 
 def _perform_pos(at, call):
@@ -218,7 +233,7 @@ def _perform_pos(at, call):
             return ac.set_quick_timer(api.AcTimerType[args[0]],
                                       datetime.timedelta(seconds=args[1]))
         if method == "set_quick_timer_time":
-            return ac.set_quick_timer(api.AcTimerType[args[0]], datetime.time(args[1], args[2]))
+            return ac.set_quick_timer(api.AcTimerType[args[0]], _mktime(args))
         if method == "clear_quick_timer":
             return ac.clear_quick_timer(api.AcTimerType[args[0]])
     ac = acs[idx[0]]
